@@ -491,3 +491,4 @@ PROPS['C06']['required_classes']['all'].append('concurrent-builders-with-far-jum
 PROPS['C12']['units'].append({'test': 'TestC12Concurrent', 'checks': {'quick': 400, 'thorough': 40000}, 'shards': {'quick': 2, 'thorough': 8}, 'timeout': {'quick': 300, 'thorough': 1500}})
 PROPS['C12']['required_classes']['all'].append('concurrent-lookups-of-different-tables')
 PROPS['C13']['required_classes']['all'] += ['operation-names-in-other-letter-case', 'text-forms-in-a-32-bit-process']
+PROPS['C17']['required_classes']['all'] += ['cache-holds-the-dump-of-an-earlier-build', 'overlapping-runs-in-separate-pid-namespaces']
